@@ -80,13 +80,15 @@ type c03Run struct {
 	leftCh    map[string]chan struct{}
 	gate      map[string]chan struct{}
 	gateOnce  map[string]*sync.Once
-	wg        sync.WaitGroup
+	active    int
+	cond      *sync.Cond
 	runDone   chan struct{}
 }
 
 func c03NewRun(c *c03Case) *c03Run {
 	r := &c03Run{c: c, started: map[string]int{}, collected: map[string]int{}, startedCh: map[string]chan struct{}{},
 		leftCh: map[string]chan struct{}{}, gate: map[string]chan struct{}{}, gateOnce: map[string]*sync.Once{}, runDone: make(chan struct{})}
+	r.cond = sync.NewCond(&r.mu)
 	for _, n := range c.Nodes {
 		r.startedCh[n.Key] = make(chan struct{})
 		r.leftCh[n.Key] = make(chan struct{})
@@ -99,9 +101,14 @@ func c03NewRun(c *c03Case) *c03Run {
 func (r *c03Run) open(key string) { r.gateOnce[key].Do(func() { close(r.gate[key]) }) }
 
 func (r *c03Run) body(key string, in map[string]any) string {
-	r.wg.Add(1)
-	defer r.wg.Done()
+	defer func() {
+		r.mu.Lock()
+		r.active--
+		r.cond.Broadcast()
+		r.mu.Unlock()
+	}()
 	r.mu.Lock()
+	r.active++
 	r.started[key]++
 	first := r.started[key] == 1
 	r.mu.Unlock()
@@ -389,7 +396,14 @@ func c03Impl(c *c03Case) (*c03Obs, []compose.VerifC03Event) {
 		r.open(n.Key)
 	}
 	wgDone := make(chan struct{})
-	go func() { r.wg.Wait(); close(wgDone) }()
+	go func() { // quiesce: every body that was entered has returned (cleanup only, not an observable)
+		r.mu.Lock()
+		for r.active > 0 {
+			r.cond.Wait()
+		}
+		r.mu.Unlock()
+		close(wgDone)
+	}()
 	select {
 	case <-wgDone:
 	case <-time.After(10 * time.Second):
@@ -649,6 +663,44 @@ func c03Trace(ctx *vh.Ctx, c *c03Case, obs *c03Obs, events []compose.VerifC03Eve
 		obs.Trace = evs
 		dis("C03:trace-vs-posthandler:"+c.Mode,
 			fmt.Sprintf("protocol trace says %v were never received, post-handlers say %v", lostStarted, obs.Uncollected), json.RawMessage(raw))
+	}
+	// eager mode: the model's eager engine driven by the observed completion order must
+	// submit and collect exactly the same executions
+	if c.Mode == "workflow" {
+		var order []string
+		seen := map[string]bool{}
+		for _, id := range ans.Final.Got {
+			order = append(order, nodeOf[id])
+			seen[nodeOf[id]] = true
+		}
+		for _, n := range c.Nodes {
+			if !seen[n.Key] {
+				order = append(order, n.Key)
+			}
+		}
+		var submitted []string
+		for _, id := range ans.Submitted {
+			submitted = append(submitted, nodeOf[id])
+		}
+		ec := map[string]any{"kind": "eager", "nodes": c.Nodes, "endPreds": c.EndPreds, "input": c.Input, "order": order}
+		eraw, err := ctx.Oracle.Ask("C03", ec)
+		if err != nil {
+			return err
+		}
+		var ea struct {
+			Result      [][]string `json:"result"`
+			Returned    bool       `json:"returned"`
+			Started     []string   `json:"started"`
+			Uncollected []string   `json:"uncollected"`
+		}
+		if err := json.Unmarshal(eraw, &ea); err != nil {
+			return fmt.Errorf("oracle eager answer: %v: %s", err, eraw)
+		}
+		ctx.Res.Dist("eager-engine:compared")
+		if !ea.Returned || !vh.CanonEq(c03Sorted(ea.Started), c03Sorted(submitted)) || !vh.CanonEq(c03Sorted(ea.Uncollected), append([]string{}, lost...)) || !vh.CanonEq(ea.Result, obs.Result) {
+			obs.Trace = evs
+			dis("C03:eager-engine-differs", fmt.Sprintf("with the observed completion order %v the eager model submits %v and leaves %v uncollected; the implementation submitted %v and left %v", order, ea.Started, ea.Uncollected, submitted, lost), json.RawMessage(eraw))
+		}
 	}
 	if ans.Final.Num != len(lost) {
 		obs.Trace = evs
